@@ -196,8 +196,9 @@ func (v *Visitor) Visit(s *df.AnalyzerState, source df.NodeWithTrace) {
 		case *df.ParamNode:
 			if cur.Prev != nil && cur.Prev.Node != nil {
 				callArg, prevIsCallArg := cur.Prev.Node.(*df.CallNodeArg)
+				_, prevIsParam := cur.Prev.Node.(*df.ParamNode)
 				if cur.Prev.Node.Graph() != graphNode.Graph() || (prevIsCallArg &&
-					callArg.ParentNode().Callee() == graphNode.Graph().Parent) {
+					callArg.ParentNode().Callee() == graphNode.Graph().Parent) || prevIsParam {
 					// Flows inside the function body. The data propagates to other locations inside the function body
 					// Second part of the condition allows self-recursive calls to be used
 					for nextNode, edgeInfos := range graphNode.Out() {
